@@ -142,3 +142,34 @@ func TestFindingF3RestartWithContext(t *testing.T) {
 		w.Stop()
 	}
 }
+
+// F5  varmq.worker.processNextJob#post:wake-consumed@C06 -- an entry that is consumed without being dispatched (here: a job cancelled while
+// queued) leaves the queue empty with nothing in flight and nobody broadcasts: a caller parked in WaitUntilFinished sleeps on although
+// "nothing pending, nothing processing" holds.
+func TestFindingF5ConsumedEntryLeavesWaiterParked(t *testing.T) {
+	release := make(chan struct{})
+	started := make(chan struct{}, 1)
+	w := NewWorker(func(j Job[int]) {
+		if j.Data() == 1 {
+			started <- struct{}{}
+			<-release
+		}
+	}, WithConcurrency(1))
+	q := w.BindQueue()
+	defer w.Stop()
+	q.Add(1)
+	<-started // job 1 is in flight
+	b, _ := q.Add(2)
+	if err := b.Close(); err != nil { // cancelled while queued: stays in the queue as a closed entry
+		t.Fatal(err)
+	}
+	done := make(chan struct{})
+	go func() { w.WaitUntilFinished(); close(done) }()
+	time.Sleep(100 * time.Millisecond) // the waiter is parked (one job in flight)
+	close(release)
+	select {
+	case <-done:
+	case <-time.After(3 * time.Second):
+		t.Fatalf("WaitUntilFinished still parked 3s after the last job finished: pending=%d processing=%d", w.NumPending(), w.NumProcessing())
+	}
+}
